@@ -10,9 +10,9 @@ CONSTANTS
   MinB = 1
   MaxB = 2
   MinW = 1
-  MaxW = 1
+  MaxW = 2
   MinN = 1
-  MaxN = 1
+  MaxN = 2
   Shapes <- Shapes_q
 INVARIANTS IdleDone NoError AtMostOnce Bounded
 CHECK_DEADLOCK FALSE
